@@ -286,8 +286,8 @@ class Interp:
                 raise Unspec("negated keys filter against several values")
             if any(isinstance(x, (list, dict)) and not is_regex(x) for x in vals):
                 raise Unspec("keys filter against collections")
-            if any(isinstance(x, str) and k != x and k in x for k in keys for x in vals):
-                raise Unspec("key is a proper substring of a value")      # the tool's `in` on two strings is containment
+            if base == "in" and any(isinstance(x, str) and k != x and k in x for k in keys for x in vals):
+                raise Unspec("key is a proper substring of a value")      # the tool's `in` on two strings is containment (`==` is equality)
             return [k for k in keys if any(one(k, x) for x in vals)]
         x = vals[0]
         if isinstance(x, list):
